@@ -53,8 +53,12 @@ type retainedRes struct {
 
 var retained []retainedRes
 
+// noRetention is set (before the goroutines start) while the concurrency phase runs: the retention ring is
+// harness state and must not be shared between goroutines.
+var noRetention bool
+
 func retain(op string, v *big.Int) {
-	if v == nil {
+	if v == nil || noRetention {
 		return
 	}
 	if len(retained) >= 48 {
@@ -295,6 +299,8 @@ func concurrencyPhase(r *hx.Rng, n, G int, add func(key, op, detail string)) (ev
 	}
 	var mu sync.Mutex
 	var wg sync.WaitGroup
+	noRetention = true
+	defer func() { noRetention = false }()
 	for g := 0; g < G; g++ {
 		wg.Add(1)
 		go func(g int) {
